@@ -84,6 +84,19 @@ def c05(pid, tier, seed, selftest=False):
              "alias": not lng, "sender": snd}
             for snd in ("first", "last", "absent") for inp in ("file", "stdin") for outp in ("file", "stdout")
             for kr in ("opt", "env", "both") for lng in (False, True)]
+    # a long run of encryptions in ONE process with all randomness left to the library: the recovered ephemeral, payload and
+    # file keys are never a public constant (then anybody could read the file) - Trace_Fresh, C05_ predicate
+    hk = cli.make_keys(pid, tpl, seed, [("alice", b"alice-pw"), ("bob", b"bob-pw")])
+    hevs = exec_history(pid, tpl, seed, "h900", ["kenc"] * 12, hk, 10, lib_only=True)
+    hwd = workdir(pid, "run-fresh", clean=True)
+    write_jsonl(hwd + "/trace.ndjson", hevs)
+    hv = validate_trace(pid, "fresh", "Trace_Fresh", hwd + "/trace.ndjson", len(hevs))
+    rep.add_trace_run("fresh", hv, 1, len(hevs))
+    for (ln, pred) in hv["viols"]:
+        if pred.startswith("TOOL_"):
+            raise ToolError("trace tooling mismatch " + pred)
+        if pred.startswith("C05_"):
+            rep.violation("%s id=%s" % (pred, hevs[ln - 1].get("id")), {"engine": "fresh", "history": ["kenc"] * 12, "events": hevs})
     # ... and `kestrel encrypt -t NAME -f NAME`: the file opens under the private key of the entry called exactly NAME
     cfgs += [{"cmd": "encrypt", "cause": "none", "prior": "absent", "inp": inp, "outp": "file", "kr": kr, "long": lng, "alias": not lng, "sender": "first"}
              for inp in ("file", "stdin") for kr in ("opt", "env", "both") for lng in (False, True)]
@@ -250,7 +263,7 @@ def fresh_cfg(maxops, nchunks, reuse, invs):
     return s
 
 
-def exec_history(pid, tpl, seed, hid, ops, keys, plen, lib_only=False, intr=False):
+def exec_history(pid, tpl, seed, hid, ops, keys, plen, lib_only=False, intr=False, lo_recipient=False):
     """Run one history of operations with identical inputs through the library / the CLI and
     recover everything each operation drew.  Returns the event list."""
     evs = [{"ev": "begin", "id": hid, "ops": ops}]
@@ -270,6 +283,8 @@ def exec_history(pid, tpl, seed, hid, ops, keys, plen, lib_only=False, intr=Fals
                 continue
             reads = [[], [7, 3], [1, 1, 1], [1000, 65536, 5], [65536, 100, 65536]][(k // 2 + len(hid)) % 5]
             lop = {"op": "kenc_draws", "kseed": 1, "rseed": 1, "plen": max(plen, 12), "reads": reads, "id": "%s.%d" % (hid, k)}
+            if lo_recipient:
+                lop["lo"] = [0, 4, 9, 13][k % 4]        # recipients that force all-zero shared secrets
             if intr and k % 2 == 1:
                 # a transient read interruption after two chunks have been read: whatever the operation does (fail, or
                 # carry on), no (key, nonce) pair may be used twice
@@ -389,12 +404,15 @@ def c07(pid, tier, seed, selftest=False):
     hists += [["kenc"] * 5, ["kenc"] * 2, ["rand"] * 6, ["rand", "kenc", "rand", "kenc"]]       # library only, one process
     n_intr = len(hists)
     hists += [["kenc"] * 6]                     # library only, every second one with an interrupted read
+    n_lo = len(hists)
+    hists += [["kenc"] * 4]                     # library only, to recipients that force all-zero shared secrets: must be refused
     keys = cli.make_keys(pid, tpl, seed, [("alice", b"alice-pw"), ("bob", b"bob-pw")])
     all_evs = []
 
     def one(i_h):
         i, h = i_h
-        return exec_history(pid, tpl, seed, "h%d" % i, h, keys, 70000 if i % 5 == 0 else 10, lib_only=(i >= n_model), intr=(i >= n_intr))
+        return exec_history(pid, tpl, seed, "h%d" % i, h, keys, 70000 if i % 5 == 0 else 10, lib_only=(i >= n_model), intr=(n_intr <= i < n_lo),
+                            lo_recipient=(i >= n_lo))
     with cf.ThreadPoolExecutor(max_workers=NCPU) as ex:
         for evs in ex.map(one, list(enumerate(hists))):
             all_evs.append(evs)
@@ -537,7 +555,8 @@ def c08(pid, tier, seed, selftest=False):
     for i in range(n):
         plen = [0, 1, 10, 65536, 65537, 131072, 200000][i % 7] if i < 21 else rnd.randint(0, 300000)
         reads = [] if i % 3 == 0 else [rnd.randint(1, 65536) for _ in range(rnd.randint(1, 5))]
-        one.append({"op": "clear", "id": "cl%d" % i, "api": "key" if i % 4 else "pass", "plen": plen, "reads": reads, "k": i, "pseed": i})
+        one.append({"op": "clear", "id": "cl%d" % i, "api": "key" if i % 4 else "pass", "plen": plen, "reads": reads, "k": i, "pseed": i,
+                    "eph": ["both", "both", "priv_only", "pub_only", "none"][i % 5]})
     for s in one:
         rep.case(json.dumps(s, sort_keys=True), s["plen"] > 65536 or bool(s["reads"]))
     rep.sample(one[1])
